@@ -216,14 +216,21 @@ def _chunk(arg: tuple) -> tuple[int, list]:
 
 
 def run(rep: common.Reporter, tier: str, check: set[str]) -> dict:
-    depth = 2 if tier == 'quick' else 3
-    c = dict(Kinds=KINDS, Vals='1..2', Routes='{"attr", "map"}', InitKinds=KINDS, Depth=str(depth))
+    # depth 2 with everything; thorough adds depth 3 with one value per kind through the attribute route
+    plans = [dict(Kinds=KINDS, Vals='1..2', Routes='{"attr", "map"}', InitKinds=KINDS, Depth='2')]
+    if tier != 'quick':
+        plans.append(dict(Kinds=KINDS, Vals='{1}', Routes='{"attr"}', InitKinds=KINDS, Depth='3'))
     behs: list[str] = []
-    r = tlc.run('MetaValue', c, invariants=['TypeOK', 'InPlaceKeepsKind'], constraints=['Emit'],
-                on_print=lambda p: behs.append(p[1]), timeout=3000)
-    if not r.ok:
-        rep.machinery_error(f'MetaValue TLC run failed: {r.violated} {r.tail[-800:]}')
-        return {}
+    r = None
+    states = transitions = 0
+    for c in plans:
+        r = tlc.run('MetaValue', c, invariants=['TypeOK', 'InPlaceKeepsKind'], constraints=['Emit'],
+                    on_print=lambda p: behs.append(p[1]), timeout=3000)
+        if not r.ok:
+            rep.machinery_error(f'MetaValue TLC run failed: {r.violated} {r.tail[-800:]}')
+            return {}
+        states += r.distinct
+        transitions += r.generated
     steps = 0
     with mp.Pool(16) as pool:
         for st, out in common.gmap(pool, rep, _chunk, [(sorted(check), ch) for ch in common.chunked(list(enumerate(behs)), 300)]):
@@ -244,6 +251,6 @@ def run(rep: common.Reporter, tier: str, check: set[str]) -> dict:
         mvi.update_value = orig
     if not caught or replay(beh, HOSTS[0], {'readback', 'reparse', 'frame', 'tree'})[0]:
         rep.machinery_error('sensitivity: MetaValue replay did not tell the mutated setter from the real one')
-    return {'states': r.distinct, 'transitions': r.generated, 'behaviours': len(behs) * len(HOSTS), 'steps': steps,
+    return {'states': states, 'transitions': transitions, 'behaviours': len(behs) * len(HOSTS), 'steps': steps,
             'sensitivity_mutated_setter_caught': caught,
             'hosts': [h[0] for h in HOSTS], 'sample': json.loads(behs[len(behs) // 2]) if behs else None}
